@@ -5,6 +5,7 @@ import (
 
 	"github.com/renbou/grpcbridge/bridgelog"
 	"github.com/renbou/grpcbridge/grpcadapter"
+	"github.com/renbou/grpcbridge/internal/rpcutil"
 	"github.com/renbou/grpcbridge/routing"
 	"google.golang.org/grpc"
 	"google.golang.org/grpc/metadata"
@@ -87,12 +88,32 @@ type grpcServerStream struct {
 	grpc.ServerStream
 }
 
-func (s grpcServerStream) Recv(_ context.Context, msg proto.Message) error {
-	return s.ServerStream.RecvMsg(msg)
+// Recv and Send must honor the passed context, as required by [grpcadapter.ProxyForwarder.Forward]:
+// RecvMsg/SendMsg of a grpc.ServerStream only return once the client does something or the handler returns,
+// so without this a client idling on an open stream would never learn that the target has ended the call,
+// since Forward waits for its forwarding goroutines which would be stuck in RecvMsg.
+func (s grpcServerStream) Recv(ctx context.Context, msg proto.Message) error {
+	return s.withCtx(ctx, func() error { return s.ServerStream.RecvMsg(msg) })
 }
 
-func (s grpcServerStream) Send(_ context.Context, msg proto.Message) error {
-	return s.ServerStream.SendMsg(msg)
+func (s grpcServerStream) Send(ctx context.Context, msg proto.Message) error {
+	return s.withCtx(ctx, func() error { return s.ServerStream.SendMsg(msg) })
+}
+
+// withCtx works like the similar helpers of the other stream adapters: the blocking operation is run in a separate goroutine,
+// which is guaranteed to exit once the stream handler returns, since gRPC then cancels the stream and unblocks RecvMsg/SendMsg.
+func (s grpcServerStream) withCtx(ctx context.Context, f func() error) error {
+	errChan := make(chan error, 1)
+	go func() {
+		errChan <- f()
+	}()
+
+	select {
+	case <-ctx.Done():
+		return rpcutil.ContextError(ctx.Err())
+	case err := <-errChan:
+		return err
+	}
 }
 
 func (s grpcServerStream) SetHeader(md metadata.MD) {
